@@ -678,7 +678,10 @@ class C2Profile(ConfigBlock):
                 stage.set_config_block("beacon_gate", block)
 
         if c2_recover:
-            http_get.set_non_empty_config_block("server", HttpOptionsBlock(output=DataTransformBlock(steps=c2_recover)))
+            # the recover program is stored in recovery order: the profile states the transform, which is its reverse
+            http_get.set_non_empty_config_block(
+                "server", HttpOptionsBlock(output=DataTransformBlock(steps=c2_recover[::-1]))
+            )
         http_get.set_non_empty_config_block("client", http_get_client)
         profile.set_non_empty_config_block("http_get", http_get)
         http_post.set_non_empty_config_block("client", http_post_client)
